@@ -19,17 +19,20 @@ var ErrInjected = errors.New("simenv: injected write error")
 type SimWriter struct {
 	FailAt int
 	Short  int
-	Calls  int
-	Buf    []byte
-	Fired  bool
-	Lens   []int // length of every write requested
+	// Transient: only the FailAt-th call fails; later calls succeed (a writer
+	// that recovers). A correct caller has stopped writing by then.
+	Transient bool
+	Calls     int
+	Buf       []byte
+	Fired     bool
+	Lens      []int // length of every write requested
 }
 
 func (w *SimWriter) Write(p []byte) (int, error) {
 	k := w.Calls
 	w.Calls++
 	w.Lens = append(w.Lens, len(p))
-	if w.FailAt >= 0 && k >= w.FailAt {
+	if w.FailAt >= 0 && (k == w.FailAt || (k > w.FailAt && !w.Transient)) {
 		n := 0
 		if k == w.FailAt {
 			n = w.Short
